@@ -628,3 +628,234 @@ Proof.
   intros Hwf Hb. exists (f154_bytes r). split; [apply f154_emit_spec; assumption|].
   split; [apply f154_bytes_len; assumption | apply f154_parse_bytes; assumption].
 Qed.
+
+(* ---------- C06: what parse returns, and which parsed frames emit can carry ---------- *)
+
+Definition f154_known_mode (m : Z) : bool := (m =? 0) || (m =? 2) || (m =? 3).
+
+(* the frame control words (of frames accepted by parse) whose representation is well formed:
+   no security header, a frame type with addressing fields, known addressing modes, and the
+   addressing layout Repr::emit writes *)
+Definition f154_emittable (raw : Z) : bool :=
+  f154_has_addressing (f154_ft_of raw) (f154_ver_of raw) && negb (f154_bit_of raw 3) &&
+  f154_known_mode (f154_dm_of raw) && f154_known_mode (f154_sm_of raw) &&
+  f154_layout_ok (f154_ver_of raw) (f154_dm_of raw) (f154_sm_of raw) (f154_bit_of raw 6).
+
+Lemma f154_bytes_ok_rev s : bytes_ok s = true -> bytes_ok (rev s) = true.
+Proof.
+  unfold bytes_ok. rewrite !forallb_forall. intros H x Hx. apply H. apply in_rev. assumption.
+Qed.
+
+Lemma f154_blen_rev (s : list Z) : blen (rev s) = blen s.
+Proof. unfold blen. rewrite rev_length. reflexivity. Qed.
+
+Lemma f154_read_le16_range s : bytes_ok s = true -> 2 <= blen s ->
+  exists v, f154_read_le16 s = Ok v /\ 0 <= v < 65536.
+Proof.
+  intros Hb Hl. destruct s as [|a [|b t]]; autorewrite with blen in Hl; try lia.
+  unfold f154_read_le16, f154_read_le. autorewrite with blen. pose proof (blen_nonneg t). zbool.
+  eexists; split; [reflexivity|]. zfold. cbn [firstn f154_le_dec fold_right].
+  cbn [bytes_ok forallb] in Hb. bsplit. lia.
+Qed.
+
+Lemma f154_read_addr_ok af off m : bytes_ok af = true -> 0 <= off ->
+  off + f154_mode_size m <= blen af -> f154_known_mode m = true ->
+  exists a, f154_read_addr af off m = Ok (Some a) /\ f154_addr_ok a = true /\ f154_addr_mode a = m.
+Proof.
+  intros Hb Ho Hl Hk. unfold f154_known_mode in Hk.
+  assert (Hm : m = 0 \/ m = 2 \/ m = 3).
+  { apply orb_prop in Hk. destruct Hk as [Hk|Hk]; [apply orb_prop in Hk; destruct Hk as [Hk|Hk]|];
+    apply Z.eqb_eq in Hk; lia. }
+  unfold f154_read_addr, f154_AM_ABSENT, f154_AM_SHORT, f154_AM_EXTENDED.
+  destruct Hm as [-> | [-> | ->]]; zfold; cbv iota.
+  - exists F154Absent. repeat split.
+  - change (f154_mode_size 2) with 2 in Hl.
+    destruct (wb_sub_ok_len af off (off + 2) ltac:(lia) ltac:(lia)) as (s & -> & Hs & Hbs). cbn [obind].
+    eexists; split; [reflexivity|]. split; [|reflexivity]. cbn [f154_addr_ok]. unfold is_arr.
+    rewrite f154_blen_rev, Hs, (f154_bytes_ok_rev s (Hbs Hb)). zbool. reflexivity.
+  - change (f154_mode_size 3) with 8 in Hl.
+    destruct (wb_sub_ok_len af off (off + 8) ltac:(lia) ltac:(lia)) as (s & -> & Hs & Hbs). cbn [obind].
+    eexists; split; [reflexivity|]. split; [|reflexivity]. cbn [f154_addr_ok]. unfold is_arr.
+    rewrite f154_blen_rev, Hs, (f154_bytes_ok_rev s (Hbs Hb)). zbool. reflexivity.
+Qed.
+
+Lemma f154_has_addressing_seq ft ver : f154_has_addressing ft ver = true -> f154_has_seq ft = true.
+Proof.
+  unfold f154_has_addressing, f154_has_seq. intros H.
+  repeat match type of H with
+  | _ || _ = true => apply orb_prop in H; destruct H as [H|H]
+  | _ && _ = true => apply andb_prop in H; destruct H as [H _]
+  end; rewrite H; rewrite ?orb_true_r; reflexivity.
+Qed.
+
+Lemma f154_parse_wf bs r raw : bytes_ok bs = true -> f154_parse bs = Ok r -> f154_fc bs = Ok raw ->
+  f154_emittable raw = true -> f154_wf r = true.
+Proof.
+  intros Hb H Hfc He. unfold f154_parse in H.
+  destruct (f154_check_len bs) as [[]| |] eqn:E; cbn [obind] in H; try discriminate.
+  destruct (f154_check_len_inv bs E) as (raw' & Hfc' & Hlen & Hl & _).
+  rewrite Hfc in Hfc'. injection Hfc' as <-.
+  unfold f154_emittable in He.
+  apply andb_prop in He. destruct He as [He Hlay]. apply andb_prop in He. destruct He as [He Hks].
+  apply andb_prop in He. destruct He as [He Hkd]. apply andb_prop in He. destruct He as [Ha Hse].
+  apply negb_true_iff in Hse.
+  pose proof Hlay as Hlay0. unfold f154_layout_ok in Hlay.
+  change (f154_flags (f154_ver_of raw) (f154_dm_of raw) (f154_sm_of raw) (f154_bit_of raw 6))
+    with (f154_flags_of raw) in Hlay.
+  destruct (f154_flags_of raw) as [[[[dp da] sp] sa]|] eqn:Hf; [|discriminate].
+  unfold f154_flags_eqb in Hlay.
+  apply andb_prop in Hlay. destruct Hlay as [Hlay E4]. apply andb_prop in Hlay. destruct Hlay as [Hlay E3].
+  apply andb_prop in Hlay. destruct Hlay as [E1 E2].
+  apply eqb_prop in E1. apply eqb_prop in E3. apply Z.eqb_eq in E2. apply Z.eqb_eq in E4. subst dp da sp sa.
+  destruct (f154_addressing_fields_ok bs raw Hfc Hl) as [[_ [Hx|Hx]]|(fl & af & _ & Hf' & Haf & Haflen & Hafeq)];
+    [congruence | congruence |].
+  rewrite Hf in Hf'. injection Hf' as <-.
+  assert (Hbaf : bytes_ok af = true) by (rewrite Hafeq; apply bytes_ok_firstn, bytes_ok_skipn, Hb).
+  unfold f154_flags_len in Haflen. cbn [f154_pan_size] in Haflen.
+  set (c := f154_bit_of raw 6) in *.
+  pose proof (f154_pan_size_range (negb c)) as Hps.
+  assert (Hsd : 0 <= f154_mode_size (f154_dm_of raw))
+    by (destruct (f154_mode_size_cases (f154_dm_of raw)) as [[_ ->]|[[_ ->]|[_ [_ ->]]]]; lia).
+  assert (Hss : 0 <= f154_mode_size (f154_sm_of raw))
+    by (destruct (f154_mode_size_cases (f154_sm_of raw)) as [[_ ->]|[[_ ->]|[_ [_ ->]]]]; lia).
+  (* the frame control accessors *)
+  unfold f154_frame_type, f154_security_enabled, f154_frame_pending, f154_ack_request,
+    f154_pan_id_compression, f154_frame_version, f154_fc_bit, f154_sequence_number in H.
+  rewrite Hfc in H. cbn [obind] in H. fold c in H.
+  unfold f154_frame_type in H. rewrite Hfc in H. cbn [obind] in H.
+  rewrite (f154_has_addressing_seq _ _ Ha) in H. zfold_in H.
+  rewrite wb_get_u8_ok in H by lia. cbn [obind] in H.
+  pose proof (bytes_ok_byte bs 2 Hb ltac:(lia)) as Hseq. zfold_in Hseq.
+  (* destination PAN id *)
+  unfold f154_dst_pan_id in H. rewrite (f154_flags_ok bs raw Hfc), Hf, Haf in H. cbn [obind] in H.
+  unfold wb_upto in H at 1.
+  replace ((0 <=? 2) && (2 <=? blen af)) with true in H by (symmetry; zbool; reflexivity).
+  destruct (f154_read_le16_range (firstn (Z.to_nat 2) af) (bytes_ok_firstn _ _ Hbaf)
+              ltac:(rewrite blen_firstn; lia)) as (dpv & Hdp & Rdp).
+  cbn [obind] in H. rewrite Hdp in H. cbn [obind] in H.
+  (* destination address *)
+  unfold f154_dst_addr in H. rewrite (f154_flags_ok bs raw Hfc), Hf, Haf in H. cbn [obind f154_pan_size] in H.
+  destruct (f154_read_addr_ok af 2 (f154_dm_of raw) Hbaf ltac:(lia) ltac:(lia) Hkd) as (dav & Hda & Oda & Mda).
+  rewrite Hda in H. cbn [obind] in H.
+  (* source PAN id, source address *)
+  unfold f154_src_pan_id, f154_src_addr in H.
+  rewrite (f154_flags_ok bs raw Hfc), Hf, Haf in H. cbn [obind f154_pan_size] in H.
+  destruct (f154_read_addr_ok af (2 + f154_mode_size (f154_dm_of raw) + f154_pan_size (negb c))
+              (f154_sm_of raw) Hbaf ltac:(lia) ltac:(lia) Hks) as (sav & Hsa & Osa & Msa).
+  rewrite Hsa in H.
+  assert (G : forall spv, (match spv with Some p => negb c && is_u16 p | None => c end) = true ->
+            mkF154 (f154_ft_of raw) (f154_bit_of raw 3) (f154_bit_of raw 4) (f154_bit_of raw 5)
+              (Some (nth 2 bs 0)) c (f154_ver_of raw) (Some dpv) (Some dav) spv (Some sav) = r ->
+            f154_wf r = true).
+  { intros spv Hspv <-. unfold f154_wf.
+    cbn [f154_r_frame_type f154_r_security f154_r_pending f154_r_ack_request f154_r_seq
+         f154_r_compression f154_r_version f154_r_dst_pan f154_r_dst_addr f154_r_src_pan f154_r_src_addr].
+    rewrite Ha, Hse, Hspv, Oda, Osa, Mda, Msa, Hlay0. unfold is_u8, is_u16.
+    pose proof (land_3_range (Z.shiftr raw 12)) as Hv. fold (f154_ver_of raw) in Hv.
+    assert (f154_ver_of raw <> 3).
+    { intros E3. unfold f154_layout_ok in Hlay0. rewrite E3 in Hlay0. discriminate Hlay0. }
+    zbool. reflexivity. }
+  destruct c eqn:Hc; cbn [negb f154_pan_size] in H.
+  - cbn [obind] in H. injection H as H. apply (G None); [reflexivity | exact H].
+  - destruct (f154_read_le16_range
+                (firstn (Z.to_nat 2) (skipn (Z.to_nat (2 + f154_mode_size (f154_dm_of raw))) af)))
+      as (spv & Hsp & Rsp).
+    { apply bytes_ok_firstn, bytes_ok_skipn, Hbaf. }
+    { cbn [negb f154_pan_size] in Haflen. rewrite blen_firstn; [lia|]. rewrite blen_skipn; lia. }
+    cbn [negb f154_pan_size] in Haflen.
+    rewrite wb_from_ok in H by lia. cbn [obind] in H. unfold wb_upto in H.
+    rewrite blen_skipn in H by lia.
+    replace ((0 <=? 2) && (2 <=? blen af - (2 + f154_mode_size (f154_dm_of raw)))) with true in H
+      by (symmetry; zbool; reflexivity).
+    cbn [obind] in H. rewrite Hsp in H. cbn [obind] in H. injection H as H.
+    apply (G (Some spv)); [|exact H]. cbn [negb andb]. unfold is_u16. zbool. reflexivity.
+Qed.
+
+(* C06 "re-emits and re-parses to itself", restricted to the frames Repr::emit can carry.  For the
+   other frames parse accepts (a security header, a frame type without addressing fields, an
+   addressing layout without destination PAN id, ...) the statement is false: see the witnesses. *)
+Lemma f154_reparse_partial bs r raw : bytes_ok bs = true -> f154_parse bs = Ok r ->
+  f154_fc bs = Ok raw -> f154_emittable raw = true ->
+  f154_wf r = true /\
+  forall b, blen b = f154_buffer_len r ->
+    exists bs', f154_emit r b = Ok bs' /\ f154_parse bs' = Ok r.
+Proof.
+  intros Hb H Hfc He. pose proof (f154_parse_wf bs r raw Hb H Hfc He) as Hwf. split; [assumption|].
+  intros b Hlen. destruct (f154_roundtrip r b Hwf Hlen) as (bs' & Hem & _ & Hp). eauto.
+Qed.
+
+(* Witnesses: frames accepted by Frame::new_checked and Repr::parse whose representation
+   Repr::emit does not reproduce (reported, not fixed: buffer_len / emit would have to follow
+   addr_present_flags, and the interface builds representations that rely on the present
+   behaviour). *)
+
+(* a 2006 beacon-like frame: no destination, source PAN id abcd, short source address 12:34.
+   emit puts the source PAN id behind two octets it never writes. *)
+Example f154_reparse_refuted_dst_absent :
+  let bs := [0; 144; 7; 205; 171; 52; 18] in
+  exists r, bytes_ok bs = true /\ f154_new_checked bs = Ok tt /\ f154_parse bs = Ok r /\
+    f154_wf r = false /\
+    exists bs', f154_emit r (repeat 0 (Z.to_nat (f154_buffer_len r))) = Ok bs' /\ f154_parse bs' <> Ok r.
+Proof.
+  cbv zeta. eexists. split; [reflexivity|]. split; [vm_compute; reflexivity|].
+  split; [vm_compute; reflexivity|]. split; [vm_compute; reflexivity|].
+  eexists. split; [vm_compute; reflexivity|]. vm_compute. discriminate.
+Qed.
+
+(* the secured Data frame of the crate's own test vector: the representation keeps the security
+   bit but not the auxiliary security header, the emitted frame does not pass check_len *)
+Example f154_reparse_refuted_security :
+  let bs := [105; 220; 50; 205; 171; 191; 155; 21; 6; 0; 75; 18; 0; 199; 217; 181; 20; 0; 75; 18; 0;
+             5; 49; 1; 0; 0; 62; 232; 251; 133; 228; 204; 244; 72; 144; 254; 86; 102; 247; 28; 101;
+             158; 249; 147; 200; 52; 46] in
+  exists r, bytes_ok bs = true /\ f154_new_checked bs = Ok tt /\ f154_parse bs = Ok r /\
+    f154_wf r = false /\
+    exists bs', f154_emit r (repeat 0 (Z.to_nat (f154_buffer_len r))) = Ok bs' /\ f154_parse bs' = Err 0.
+Proof.
+  cbv zeta. eexists. split; [reflexivity|]. split; [vm_compute; reflexivity|].
+  split; [vm_compute; reflexivity|]. split; [vm_compute; reflexivity|].
+  eexists. split; vm_compute; reflexivity.
+Qed.
+
+(* an acknowledgement (2003): no addressing fields for parse, but buffer_len reserves four octets
+   for them which emit never writes *)
+Example f154_emit_old_bytes_refuted_no_addressing :
+  let bs := [2; 0; 9; 0; 0] in
+  exists r, f154_new_checked bs = Ok tt /\ f154_parse bs = Ok r /\ f154_wf r = false /\
+    f154_buffer_len r = 7 /\
+    f154_emit r [0; 0; 0; 0; 0; 0; 0] <> f154_emit r [255; 255; 255; 255; 255; 255; 255].
+Proof.
+  cbv zeta. eexists. split; [vm_compute; reflexivity|]. split; [vm_compute; reflexivity|].
+  split; [vm_compute; reflexivity|]. split; [vm_compute; reflexivity|]. vm_compute. discriminate.
+Qed.
+
+(* non-vacuity: the representation the interface emits (Data, 2003, compression, extended
+   addresses) is well formed, and so is what the crate's `prepare_frame` test builds *)
+Example f154_wf_example :
+  f154_wf (mkF154 1 false false true (Some 1) true 2 (Some 43981) (Some (F154Short [255; 255])) None
+             (Some (F154Ext [199; 217; 181; 20; 0; 75; 18; 0]))) = true.
+Proof. vm_compute. reflexivity. Qed.
+
+(* the layouts of [f154_wf] spelled out *)
+Lemma f154_wf_table ver dm sm c : f154_known_mode dm = true -> f154_known_mode sm = true ->
+  f154_layout_ok ver dm sm c =
+  (((ver =? 0) || (ver =? 1)) && negb (dm =? 0) && (negb (sm =? 0) || c)) ||
+  ((ver =? 2) && (((dm =? 0) && (sm =? 0) && c) ||
+                  (negb (dm =? 0) && negb (sm =? 0) && negb ((dm =? 3) && (sm =? 3))))).
+Proof.
+  intros Hd Hs.
+  assert (Hdm : dm = 0 \/ dm = 2 \/ dm = 3).
+  { unfold f154_known_mode in Hd. apply orb_prop in Hd. destruct Hd as [Hd|Hd];
+    [apply orb_prop in Hd; destruct Hd as [Hd|Hd]|]; apply Z.eqb_eq in Hd; lia. }
+  assert (Hsm : sm = 0 \/ sm = 2 \/ sm = 3).
+  { unfold f154_known_mode in Hs. apply orb_prop in Hs. destruct Hs as [Hs|Hs];
+    [apply orb_prop in Hs; destruct Hs as [Hs|Hs]|]; apply Z.eqb_eq in Hs; lia. }
+  assert (Hver : ver = 0 \/ ver = 1 \/ ver = 2 \/ (ver <> 0 /\ ver <> 1 /\ ver <> 2)) by lia.
+  destruct Hver as [-> | [-> | [-> | (N0 & N1 & N2)]]];
+    destruct Hdm as [-> | [-> | ->]]; destruct Hsm as [-> | [-> | ->]]; destruct c;
+    try (vm_compute; reflexivity);
+    unfold f154_layout_ok, f154_flags, f154_FV_2003, f154_FV_2006, f154_FV_2015;
+    replace (ver =? 0) with false by (symmetry; apply Z.eqb_neq; lia);
+    replace (ver =? 1) with false by (symmetry; apply Z.eqb_neq; lia);
+    replace (ver =? 2) with false by (symmetry; apply Z.eqb_neq; lia); reflexivity.
+Qed.
